@@ -202,7 +202,7 @@ func main() {
 	totalExec, totalSteps, totalHB, totalOutcomes, historyChecked := 0, int64(0), 0, 0, 0
 	var samples []map[string]interface{}
 	shards := 8
-	budget := time.Duration(r.Pick(100, 780)) * time.Second
+	budget := time.Duration(r.Pick(140, 780)) * time.Second
 	startAll := time.Now()
 	deadline := startAll.Add(budget / 2).UnixMilli() // bounded phase: first half at most; then the sleep-set phase gets the rest
 
@@ -215,6 +215,14 @@ func main() {
 		sc, _ := resolve(v)
 		plans = append(plans, plan{v, sc})
 	}
+	// the per-lookup scenarios (S3c, S5c, S5d) are small: they go first so that a loaded machine cuts the
+	// budget of the large scenarios, never theirs
+	sort.SliceStable(plans, func(i, j int) bool {
+		small := func(p plan) bool {
+			return strings.HasPrefix(p.sc.Name, "S3c-") || strings.HasPrefix(p.sc.Name, "S5c-") || strings.HasPrefix(p.sc.Name, "S5d-")
+		}
+		return small(plans[i]) && !small(plans[j])
+	})
 	// phase 1: the primary mode of every variant, all shards of all variants in one pool
 	run := func(mkJobs func(p plan) []explore.Job) map[string]*explore.Result {
 		var jobs []explore.Job
@@ -402,7 +410,7 @@ func main() {
 	}
 	r.Set("bound_completed_S3", minBound)
 	r.Set("bound_completed_S6", completed["S6/cap0"])
-	r.Set("rule", "per scenario variant (S1,S2,S4,S5a,S5b,S5c and S5d x each of the eleven lookups,S7 x result-channel capacity 0/1): every Mazurkiewicz trace of the synchronisation operations (sleep sets, unbounded) plus every schedule with <= bound-1 deviations without reduction; S3 (shared LookupOptions, racy by design) and S6 (BQL INSERT || 2-clause SELECT, 25 threads): every schedule with <= bound deviations, no reduction")
+	r.Set("rule", "per scenario variant (S1,S2,S4,S3c, S5c and S5d x each of the eleven lookups, S5a,S5b,S7 x result-channel capacity 0/1): every Mazurkiewicz trace of the synchronisation operations (sleep sets, unbounded) plus every schedule with <= bound-1 deviations without reduction; S3 (shared LookupOptions, racy by design) and S6 (BQL INSERT || 2-clause SELECT, 25 threads): every schedule with <= bound deviations, no reduction")
 	if b, err := os.ReadFile(filepath.Join(common.Root(), "work/instr/c07/inventory.json")); err == nil {
 		var inv map[string]interface{}
 		if json.Unmarshal(b, &inv) == nil {
